@@ -179,7 +179,11 @@ PROPS = {
         "groups": [{"name": "C17", "quick": 8000, "thorough": 300000},
                    # the floating-point operations the translated GetNumber is interpreted with, against Go's own
                    {"name": "F64", "quick": 4000, "thorough": 400000}],
-        "rule": "JSON documents with null/bool/number/string/array/object under keys k, m, z (numbers from an edge pool around 0, +-1, 2^53, 2^63, 2^64, subnormals, huge exponents, random bit patterns and integers around powers of two; strings with control characters, timestamps, URLs, media types) x every accessor x present/absent keys; "
+        "rule": "JSON documents with null/bool/number/string/array/object under keys k, m, z (numbers from two edge pools around 0, +-1, signed zeros, subnormals, 2^31, 2^32, 2^53, 2^63, 2^64 and their neighbouring doubles, zero fractions, cancelling exponents, over-long digit strings, random bit patterns and integers around powers of two; strings with control characters, timestamps, URLs, media types) x every accessor x present/absent keys; "
+                "half of the cases choose the accessor first and file under the key a value of the vocabulary it parses (RFC 3339 corners: leap second, offsets to +-24:00, lower-case t/z, fraction digits with '.' and ',', years 0000..10000, impossible dates, padding; well-formed timestamps and token/token media types drawn field by field; about 120 URLs that parse oddly; the four renderable media types and their near misses for GetMarkup), "
+                "then possibly damage it: C0/C1/ESC/bidi/zero-width characters at one to three places, only-removed characters, case changes, blank padding, tails up to 100 000 characters, doubling; strings spelled with \\u escapes, surrogate pairs and lone surrogates; natural-language maps (tags empty, und, upper case, malformed), @value objects, nesting to depth 100, arrays and objects of thousands of members; "
+                "families of look-alike keys (letter case, blanks, suffix Map, @value, look-alike letters, the empty key) some of them in the document and any of them asked for; documents that are null, lists, scalars, truncated, with duplicate keys or trailing data, and documents whose bytes are not UTF-8 (sent as hex); "
+                "a third of the cases call other accessors on the document first; a parsed time is compared as a value (instant, nanoseconds, offset) and GetMarkup by what the chosen renderer renders at two widths against the four renderers constructed directly; "
                 "non-trivial = the key is present in the document; distinct by op content",
         "trusted": ["encoding/json decoding (the model starts from the decoded value, shipped as a typed tree with IEEE bit patterns)",
                     "time.Parse(RFC3339) and url.Parse as oracle tables computed by the real libraries per case (model parameters `Libs`)",
@@ -193,6 +197,9 @@ PROPS = {
                    {"name": "C18x", "quick": 6, "thorough": 9, "workers": 1}],
         "rule": "random history sequences (add/back/forward, length 0..200) and feed sequences (create or create-list, then append/prepend/up/down/center, length 0..30) observed after every step "
                 "(IsEmpty, Current / Current, and Contains, IsParent, IsChild, Get over offsets -4..4); plus all history sequences up to the length bound and all feed sequences up to bound-2 (group C18x); "
+                "one case in four is structured: deep histories (20..520 pages, then runs of back/forward to and past both ends, new pages at the very start, jitter; every step observed), huge ones (runs of up to 4096 adds and 70 000 moves observed at the end of the run), the same one to three pages opened repeatedly; "
+                "feeds with batches of 0..70 000 items in one call and walks of up to 100 000 moves, hundreds of alternating small (also empty) batches and single moves, step-by-step tours to both ends and back to the centre from everywhere, items with one to three distinct labels (also the identical item several times); "
+                "after each step of the large shapes Contains/IsParent/IsChild/Get are probed at offsets aimed just inside and outside both ends, around the opened item, and at +-2^15..+-2^62; "
                 "non-trivial = at least two adds and one move (history) / at least two steps (feed); distinct by op content",
         "trusted": ["Go slice aliasing in History.Add (append on a re-sliced array) is modelled by value semantics; interleaved back/add/forward sequences exercise it"],
         "assumptions": ["feed.CreateEmpty is dead code on the tree and outside the property (create / create-list are the documented constructors)",
